@@ -324,6 +324,12 @@ func gobLayers(tier string) []Layer {
 							c.Fail(key(fmt.Sprintf("decode into prec=%d mode=%d", p, m)), "malformed: "+msg)
 						} else if !matchValue(o, exp) {
 							c.Fail(key(fmt.Sprintf("decode into prec=%d mode=%d", p, m)), cmpValue(o, exp))
+						} else if exp.Acc != 0 && o.Acc != exp.Acc {
+							// the statement says nothing about Acc() here, except what "correctly rounded" implies:
+							// when this decoding rounded, the accuracy cannot point the other way or claim exactness
+							c.Fail(key(fmt.Sprintf("decode into prec=%d mode=%d", p, m)), fmt.Sprintf("the value was rounded (%s) but Acc() = %d", exp, o.Acc))
+						} else if exp.Acc == 0 && o.Acc != 0 && o.Acc != xo.Acc {
+							c.Fail(key(fmt.Sprintf("decode into prec=%d mode=%d", p, m)), fmt.Sprintf("nothing was rounded and the sender's accuracy was %d, but Acc() = %d", xo.Acc, o.Acc))
 						}
 					}
 				}
@@ -451,7 +457,7 @@ func init() {
 		Rule: "a case is (source Decimal, receiver attributes) for round trips or (payload, receiver pre-state) for hostile input; all payloads distinct by construction; a hostile case is non-trivial when decoding succeeds (the receiver must then be canonical and, for well-formed payloads, equal to the format's meaning)",
 		Assumptions: []string{
 			"format model written from the GobEncode comments (version 1 layout)",
-			"Acc() after decoding into a receiver with non-zero precision is not judged (not stated)",
+			"Acc() after decoding into a receiver with non-zero precision is judged only as far as \"correctly rounded\" implies: the direction of the rounding when this decoding rounded; Exact or the sender's accuracy when it did not",
 		},
 		Layers: gobLayers,
 	})
